@@ -14,6 +14,9 @@ CONFIGS = {
     "set-set-deferred": dict(modes=("set", "set"), delegated=(False, False)),
     "alloc-set-deferred-getters": dict(modes=("allocate", "set"), delegated=(False, False), auto_get=False, getters=True),
     "set-set-srverror": dict(modes=("set", "set"), adversary=("srv_error",)),
+    # an internal error (a non-hex message body makes the receive path raise, RendezvousConnector reports it to Boss.error) at any point,
+    # including while closing: the application still sees each event once and `closed` last
+    "set-set-internal-error": dict(modes=("set", "set"), adversary=("badhex",)),
     "set-set-lossy-burst": dict(modes=("set", "set"), nmsg=(1, 1), eager=False, canon="burst", max_opens=4),
     "alloc-set-lossy-burst": dict(modes=("allocate", "set"), nmsg=(1, 1), eager=False, canon="burst", max_opens=4),
     "set-set-lossy-lazy": dict(modes=("set", "set"), nmsg=(1, 1), eager=False, canon="lazy", max_opens=4),
@@ -27,8 +30,8 @@ class EventExplore(Explore):
 
     def violations(self, sim, when):
         out = []
-        if any(c.errors for c in sim.cl):
-            return out      # internal failures are C14's subject
+        if any(c.errors for c in sim.cl) and "badhex" not in sim.adv:
+            return out      # internal failures are C14's subject (except the one this configuration injects on purpose)
         order_preserving = "dup" not in sim.adv and "third" not in sim.adv
         for i, c in enumerate(sim.cl):
             ev = [e for e in c.ev if e[0] in RANK]
